@@ -26,6 +26,8 @@ func main() {
 	}
 	r := ev.Parse("model_checking")
 	switch os.Args[1] {
+	case "C06":
+		runC06Pruner(r)
 	case "C01", "C05", "C10", "C15":
 		if ph := os.Getenv("VERIF_PHASE"); os.Args[1] == "C01" && (ph == "conc" || ph == "race") {
 			runC01Conc(r)
